@@ -4,6 +4,8 @@ import Model.C05.Codec
 import Model.C05.Tx
 import Model.C05.PsbtMap
 import Model.C05.Misc
+import Model.C05.P2p
+import Model.Common.Sha256
 import Model.C08.Parse
 import Model.C19.Fuel
 import Generated.VarInt
@@ -11,9 +13,11 @@ import Generated.Wire
 import Generated.Limits
 open Btc Btc.Wire Btc.Fuel
 
-/-- the Python class of a wire refusal: a short read of `var_bytes` octets is the one RuntimeError. -/
+/-- the Python class of a wire refusal: a short read of `var_bytes` octets and a message that ends inside its
+    header or payload (`IncompleteMessage`) are the RuntimeErrors. -/
 def errClass : Wire.Err → String
   | .shortBytes => "runtime"
+  | .incomplete => "runtime"
   | _ => "value"
 
 /-- `pos.<class> <hex>`: how many bytes of a caller's stream the parser consumes (stream mode),
@@ -92,6 +96,27 @@ def handle : List String → String
       | "pos.tx" => runPos tx b
       | "pos.header" => runPos blockHeader b
       | "pos.block" => runPos block b
+      -- the codecs of `wire_parsers_read_exactly` that landed later (C05's p2p layer, xkey)
+      | "pos.msg" => runPos (msg hash256) b
+      | "pos.netaddr" => runPos netAddr b
+      | "pos.timedaddr" => runPos timedAddr b
+      | "pos.addr" => runPos addr b
+      | "pos.inventory" => runPos inventory b
+      | "pos.inv" => runPos inv b
+      | "pos.getheaders" => runPos locator b
+      | "pos.headers" => runPos headers b
+      | "pos.xkey" => runPos xkey b
+      -- the codecs of `more_wire_parsers_read_exactly`
+      | "pos.ping" => runPos nonce8 b
+      | "pos.feefilter" => runPos feeFilter b
+      | "pos.sendcmpct" => runPos sendCmpct b
+      | "pos.getcfilters" => runPos filterRange b
+      | "pos.cfilter" => runPos cfilter b
+      | "pos.cfheaders" => runPos cfheaders b
+      | "pos.getcfcheckpt" => runPos getcfcheckpt b
+      | "pos.cfcheckpt" => runPos cfcheckpt b
+      | "pos.ssasig" => runPos ssaSig b
+      | "pos.bmssig" => runPos bmsSig b
       | _ => "bad-op"
   | _ => "bad-op"
 
